@@ -122,35 +122,35 @@ Print Assumptions C14_match_total_unpatched_refuted.
 (* a Probe is answered with exactly the published services that offer all requested types and match
    all requested scopes under the requested rule, one ProbeMatch each, in publication order; nothing
    else changes (repaired code) *)
-Theorem C14_probe_exact : forall split d types scopes,
-  handle match_consts true split d (MProbe types scopes) =
+Theorem C14_probe_exact : forall split allow d types scopes,
+  handle match_consts true split allow d (MProbe types scopes) =
   (d, map OProbeMatch (filter (matchesb match_consts true split types scopes) (t_values (local d)))).
 Proof. exact (probe_exact match_consts). Qed.
 Print Assumptions C14_probe_exact.
 
 (* a Probe that names a rule the node does not implement and asks for at least one scope is not answered, whatever
    the published services offer (identical scope texts included) *)
-Theorem C14_probe_unknown_rule_unanswered : forall fixed split d types mb u us,
+Theorem C14_probe_unknown_rule_unanswered : forall fixed split allow d types mb u us,
   is_rfc match_consts mb = false -> is_strcmp match_consts mb = false ->
-  handle match_consts fixed split d (MProbe types (Some (mb, u :: us))) = (d, []).
+  handle match_consts fixed split allow d (MProbe types (Some (mb, u :: us))) = (d, []).
 Proof. exact (probe_unknown_rule match_consts). Qed.
 Print Assumptions C14_probe_unknown_rule_unanswered.
 
-Theorem C14_probe_match_only_for_probe : forall fixed split d m s,
-  In (OProbeMatch s) (snd (handle match_consts fixed split d m)) -> exists types scopes, m = MProbe types scopes.
+Theorem C14_probe_match_only_for_probe : forall fixed split allow d m s,
+  In (OProbeMatch s) (snd (handle match_consts fixed split allow d m)) -> exists types scopes, m = MProbe types scopes.
 Proof. exact (probe_match_only_for_probe match_consts). Qed.
 Print Assumptions C14_probe_match_only_for_probe.
 
 (* a ResolveMatch leaves the node only in answer to a Resolve for a published endpoint reference, and
    describes that service; and every such Resolve is answered *)
-Theorem C14_resolve_only_published : forall fixed split d m s,
-  In (OResolveMatch s) (snd (handle match_consts fixed split d m)) ->
+Theorem C14_resolve_only_published : forall fixed split allow d m s,
+  In (OResolveMatch s) (snd (handle match_consts fixed split allow d m)) ->
   exists epr, m = MResolve epr /\ t_get epr (local d) = Some s.
 Proof. exact (resolve_only_published match_consts). Qed.
 Print Assumptions C14_resolve_only_published.
 
-Theorem C14_resolve_published_answered : forall fixed split d epr s,
-  t_get epr (local d) = Some s -> handle match_consts fixed split d (MResolve epr) = (d, [OResolveMatch s]).
+Theorem C14_resolve_published_answered : forall fixed split allow d epr s,
+  t_get epr (local d) = Some s -> handle match_consts fixed split allow d (MResolve epr) = (d, [OResolveMatch s]).
 Proof. exact (resolve_published_answered match_consts). Qed.
 Print Assumptions C14_resolve_published_answered.
 
@@ -159,33 +159,60 @@ Print Assumptions C14_resolve_published_answered.
    Resolve / unknown, with or without AppSequence, any versions, any order, duplicates), for every
    non-empty endpoint reference: the table has an entry iff there was an announcement since the last
    Bye, and the entry's metadata version is the highest one announced since then *)
-Theorem C14_table_max_version : forall fixed split ms epr, epr <> []%list ->
-  table_entry_ok epr (rev (flat_map tevs_of ms))
-                 (t_get epr (remote (handle_all match_consts fixed split (mkD [] []) ms))).
+Theorem C14_table_max_version : forall fixed split allow ms epr, epr <> []%list ->
+  table_entry_ok epr (rev (flat_map (tevs_of allow) ms))
+                 (t_get epr (remote (handle_all match_consts fixed split allow (mkD [] []) ms))).
 Proof. exact (table_after_messages match_consts). Qed.
 Print Assumptions C14_table_max_version.
 
 (* a Bye removes the entry of its endpoint reference and nothing else, whatever it carries besides the endpoint
    reference (AppSequence or not, MetadataVersion lower / equal / higher than the recorded one, Types, Scopes, XAddrs) *)
-Theorem C14_bye_clears : forall fixed split d epr bx,
-  handle match_consts fixed split d (MBye epr bx) = (mkD (t_del epr (remote d)) (local d), []) /\
-  t_get epr (remote (fst (handle match_consts fixed split d (MBye epr bx)))) = None /\
+Theorem C14_bye_clears : forall fixed split allow d epr bx,
+  handle match_consts fixed split allow d (MBye epr bx) = (mkD (t_del epr (remote d)) (local d), []) /\
+  t_get epr (remote (fst (handle match_consts fixed split allow d (MBye epr bx)))) = None /\
   (forall k, bytes_eqb k epr = false ->
-             t_get k (remote (fst (handle match_consts fixed split d (MBye epr bx)))) = t_get k (remote d)).
+             t_get k (remote (fst (handle match_consts fixed split allow d (MBye epr bx)))) = t_get k (remote d)).
 Proof. exact (bye_clears match_consts). Qed.
 Print Assumptions C14_bye_clears.
 
 (* "since its last Bye" read literally: the first announcement after a Bye is recorded as it is, from any state
    (any recorded version), after any Bye, with any (e.g. restarted, lower) metadata version *)
-Theorem C14_announcement_after_bye : forall fixed split d bx iid s, s_epr s <> []%list ->
-  t_get (s_epr s) (remote (handle_all match_consts fixed split d [MBye (s_epr s) bx; MHello (Some iid) s]))
+Theorem C14_announcement_after_bye : forall fixed split allow d bx a iid s, s_epr s <> []%list ->
+  eff_iid allow a = Some iid ->          (* acted on: AppSequence with any InstanceId, or none and the option on (then 0) *)
+  t_get (s_epr s) (remote (handle_all match_consts fixed split allow d [MBye (s_epr s) bx; MHello a s]))
     = Some (with_iid iid s) /\
-  t_get (s_epr s) (remote (handle_all match_consts fixed split d [MBye (s_epr s) bx; MResolveMatches (Some iid) (Some s)]))
+  t_get (s_epr s) (remote (handle_all match_consts fixed split allow d [MBye (s_epr s) bx; MResolveMatches a (Some s)]))
     = Some (with_iid iid s) /\
-  t_get (s_epr s) (remote (handle_all match_consts fixed split d [MBye (s_epr s) bx; MProbeMatches (Some iid) [s]]))
+  t_get (s_epr s) (remote (handle_all match_consts fixed split allow d [MBye (s_epr s) bx; MProbeMatches a [s]]))
     = Some (with_iid iid s).
 Proof. exact (announcement_after_bye match_consts). Qed.
 Print Assumptions C14_announcement_after_bye.
+
+(* what makes an announcement acted on.  An AppSequence with ANY InstanceId (0 is a legal xs:unsignedInt) is acted on,
+   with the module option allow_missing_app_sequence on or off: Hello and ResolveMatch are entered into the table (version
+   arbitration of add_remote), every ProbeMatch likewise *)
+Theorem C14_announcement_with_appseq : forall fixed split allow d iid s ms,
+  handle match_consts fixed split allow d (MHello (Some iid) s) =
+    (mkD (add_remote (remote d) (with_iid iid s)) (local d), match s_xaddrs s with [] => [OResolve (s_epr s)] | _ => [] end) /\
+  handle match_consts fixed split allow d (MResolveMatches (Some iid) (Some s)) =
+    (mkD (add_remote (remote d) (with_iid iid s)) (local d), []) /\
+  remote (fst (handle match_consts fixed split allow d (MProbeMatches (Some iid) ms))) =
+    fold_left apply_tev (map (fun s => TAnn (with_iid iid s)) ms) (remote d).
+Proof. exact (announcement_with_appseq match_consts). Qed.
+Print Assumptions C14_announcement_with_appseq.
+
+(* without AppSequence an announcement is ignored when the option is off and handled exactly like InstanceId 0 when on *)
+Theorem C14_announcement_without_appseq : forall fixed split d,
+  (forall s, handle match_consts fixed split false d (MHello None s) = (d, [])) /\
+  (forall ms, handle match_consts fixed split false d (MProbeMatches None ms) = (d, [])) /\
+  (forall m, handle match_consts fixed split false d (MResolveMatches None m) = (d, [])) /\
+  (forall s, handle match_consts fixed split true d (MHello None s) = handle match_consts fixed split true d (MHello (Some 0%Z) s)) /\
+  (forall ms, handle match_consts fixed split true d (MProbeMatches None ms) =
+              handle match_consts fixed split true d (MProbeMatches (Some 0%Z) ms)) /\
+  (forall m, handle match_consts fixed split true d (MResolveMatches None m) =
+             handle match_consts fixed split true d (MResolveMatches (Some 0%Z) m)).
+Proof. exact (announcement_without_appseq match_consts). Qed.
+Print Assumptions C14_announcement_without_appseq.
 
 (* the empty endpoint reference is never recorded *)
 Theorem C14_no_empty_epr : forall rh, t_get [] (table_of rh) = None.
@@ -208,8 +235,8 @@ Proof. exact (acted_at_most_once known_ids_cap cap_pos). Qed.
 Print Assumptions C14_dedup.
 
 (* in the node model a datagram with a remembered id changes nothing and sends nothing *)
-Theorem C14_known_id_not_acted : forall fixed split cap n mid m,
-  is_known (kn_ids n) mid = true -> deliver match_consts fixed split cap n mid m = (n, []).
+Theorem C14_known_id_not_acted : forall fixed split allow cap n mid m,
+  is_known (kn_ids n) mid = true -> deliver match_consts fixed split allow cap n mid m = (n, []).
 Proof. exact (known_id_not_acted match_consts). Qed.
 Print Assumptions C14_known_id_not_acted.
 
@@ -223,7 +250,7 @@ Example C14_nonvacuous :
   match_scope match_consts false (urlsplit false) None (render u2) (render u1) = Ret false /\
   (let s v := mkService [114]%N [] None [] v 1 in
    map (fun kv => s_mdv (snd kv))
-       (remote (handle_all match_consts false (urlsplit false) (mkD [] [])
-                  [MHello (Some 1%Z) (s 2%Z); MHello (Some 1%Z) (s 1%Z); MBye [114]%N (mkBx None (Some 1%Z) [] (Some [[120]%N]) [[121]%N]); MResolveMatches (Some 1%Z) (Some (s 1%Z));
+       (remote (handle_all match_consts false (urlsplit false) false (mkD [] [])
+                  [MHello (Some 0%Z) (s 2%Z); MHello (Some 1%Z) (s 1%Z); MBye [114]%N (mkBx None (Some 1%Z) [] (Some [[120]%N]) [[121]%N]); MResolveMatches (Some 1%Z) (Some (s 1%Z));
                    MProbeMatches (Some 1%Z) [s 3%Z; s 2%Z]])) = [3%Z]).
 Proof. vm_compute. repeat split; reflexivity. Qed.
